@@ -563,7 +563,10 @@ def coq_qop(op, prev):
                      + [f"(MEdit EObj (EAddQuadratic {_cnat(mp[u])} {_cnat(mp[v])} {_q(b)}))" for u, v, b in Qd]
                      + [f"(MEdit EObj (EAddOffset {_q(O)}))"])
         if len(set(mp)) != len(mp):
-            return None          # ExprOps.mapping_ok wants distinct labels; the copying overload also takes repeated ones
+            # ExprOps.mapping_ok wants distinct labels; the copying overload also takes repeated ones: same
+            # expr_from_copy, without that guard
+            return (f"(QAddConCopyRaw {S} {_clist([_q(x) for x in L])} {_lq(Qd)} {_q(O)} "
+                    f"{_clist([_cnat(v) for v in mp])} {_cnat(a[2])} {_q(a[3])})")
         ctor = "MAddConstraintCopy" if a[1] == 0 else "MAddConstraintMove"
         return M([f"({ctor} {_clist([_q(x) for x in L])} {_lq(Qd)} {_q(O)} {_clist([_cnat(v) for v in mp])} {_cnat(a[2])} {_q(a[3])})"])
     if k == "cq.setobj":
@@ -640,15 +643,38 @@ def coq_qop(op, prev):
         if sub == "subst":
             return f"(QSubstE {S} {t} {_cnat(b[0])} {_q(b[1])} {_q(b[2])})"
         if sub == "clear":
-            return M([f"(MEdit {t} EClear)"])
-        if sub in ("sense", "rhs", "weight", "disc", "energy", "disjoint"):
-            return "QNop"       # attributes / reads: not part of the compared state
-        return None             # setq, fix, scale: no counterpart in ExprOps
+            return M([f"(MEdit {t} EClear)"]) if ke < 0 else f"(QClearCon {S} {_cnat(ke)})"
+        if sub == "setq":
+            return f"(QSetQ {S} {t} {_cnat(b[0])} {_cnat(b[1])} {_q(b[2])})"
+        if sub == "fix":
+            return f"(QFixE {S} {t} {_cnat(b[0])} {_q(b[1])})"
+        if sub == "scale":
+            return f"(QScale {S} {t} {_q(b[0])})"
+        if sub == "energy":
+            return f"(QEnergy {S} {t} {_clist([_q(x) for x in b])})"
+        if sub == "disjoint":
+            return f"(QDisjoint {S} {t} {_target(b[0])})"
+        if ke < 0:
+            return "QNop"       # the objective has no attributes; the driver ignores the call
+        con = c["cons"][ke]
+        w = "None" if con["weight"] == "inf" else f"(Some {_q(fhex(con['weight']))})"
+        if sub == "sense":
+            return f"(QSense {S} {_cnat(ke)} {_cnat(b[0])})"
+        if sub == "rhs":
+            return f"(QRhs {S} {_cnat(ke)} {_q(b[0])})"
+        if sub == "weight":
+            nw = "None" if b[0] == "inf" else f"(Some {_q(b[0])})"
+            return M([f"(MSetAttrs {_cnat(ke)} {nw} {_cnat(b[1])} {'true' if con['disc'] else 'false'})"])
+        if sub == "disc":
+            return M([f"(MSetAttrs {_cnat(ke)} {w} {_cnat(con['pen'])} {'true' if b[0] else 'false'})"])
+        return None
     if k == "cq.fixvars":
         m = a[2]
         return (f"(QFixVars {S} {_cnat(a[1])} {_clist([_cnat(v) for v in a[3:3 + m]])} "
                 f"{_clist([_q(x) for x in a[3 + m:3 + 2 * m]])})")
-    return None                 # cq.remcons_if
+    if k == "cq.remcons_if":
+        return f"(QRemConsIf {S} {_cnat(a[1])})"
+    return None
 
 
 def coq_eobs(e):
@@ -657,6 +683,23 @@ def coq_eobs(e):
     return f"(mkEO {_clist([_cnat(v) for v in e['vars']])} {lin} {quad} {_q(fhex(e['off']))})"
 
 
+def coq_cobs(e):
+    w = "None" if e["weight"] == "inf" else f"(Some {_q(fhex(e['weight']))})"
+    return (f"(mkCO {coq_eobs(e)} {_cnat(e['sense'])} {_q(fhex(e['rhs']))} {w} {_cnat(e['pen'])} "
+            f"{'true' if e['disc'] else 'false'})")
+
+
 def coq_qobs(c):
     info = _clist([_info(t, fhex(l), fhex(u)) for t, l, u in zip(c["vt"], c["lb"], c["ub"])])
-    return f"(mkQO {info} {coq_eobs(c['obj'])} {_clist([coq_eobs(e) for e in c['cons']])})"
+    return f"(mkQO {info} {coq_eobs(c['obj'])} {_clist([coq_cobs(e) for e in c['cons']])})"
+
+
+def coq_qret(op, ret):
+    """value returned by a reading call, for the ops whose model predicts it"""
+    if ret is None:
+        return "None"
+    if op[0] == "cq.e.energy":
+        return f"(Some {_q(fhex(ret))})"
+    if op[0] == "cq.e.disjoint":
+        return f"(Some {_q(int(ret))})"
+    return "None"
